@@ -294,16 +294,12 @@ theorem zip_fst_comp2 {α β γ δ : Type} (f : γ → δ) (g : β → γ) : ∀
 the specification computes from the definition and the step's variables, and re-establishes the invariant -/
 theorem shootStep_copy (c : Cfg) (gun : Nat) (scn : String) (cd : CallDef) (w : World) (sv : ShotVars)
     (hd : namesDistinct c.calls = true) (hw : WOk c w) (hcd : cd ∈ c.calls)
-    (hm : ((cd.pre && c.users.isEmpty) || needsMissing cd sv) = false) :
+    (hm1 : (cd.pre && c.users.isEmpty) = false) :
     ∃ w', WOk c w' ∧ w'.iters = (stepVars c cd w.iters sv).2 ∧ w'.cells = assocSet w.cells cd.name (tmplsOf cd) ∧
       shootStep .copy c gun scn cd w sv =
         (if (specStep c scn cd (stepVars c cd w.iters sv).1).2.1
           then .ok w' (svNext cd (specStep c scn cd (stepVars c cd w.iters sv).1).2.2 sv) (specStep c scn cd (stepVars c cd w.iters sv).1).1
           else .failed w' (specStep c scn cd (stepVars c cd w.iters sv).1).1) := by
-  have hm1 : (cd.pre && c.users.isEmpty) = false := by
-    cases h : (cd.pre && c.users.isEmpty) <;> simp [h] at hm ⊢
-  have hm2 : needsMissing cd sv = false := by
-    cases h : needsMissing cd sv <;> simp [h] at hm ⊢
   have hcells : assocGet w.cells cd.name = some (tmplsOf cd) := hw.1 cd hcd
   have hcache : CacheOk (tmplsOf cd) ((assocGet w.caches (gun, scn, cd.name)).getD []) := by
     cases hg : assocGet w.caches (gun, scn, cd.name) with
@@ -344,10 +340,11 @@ theorem shootStep_copy (c : Cfg) (gun : Nat) (scn : String) (cd : CallDef) (w : 
   have hsv : stepVars c cd w.iters sv =
       (let owner := iterOwner c cd
        let drawn := (assocGet w.iters owner).getD 0
-       let ui := if cd.pre then (c.users.getD (drawn % c.users.length) "", assocSet w.iters owner (drawn + 1)) else ("", w.iters)
-       ([(vU, ui.1.toList), (vA, (sv.a.getD "").toList), (vI, (sv.i.getD "").toList), (vG, c.g.toList)], ui.2)) := rfl
+       let ui : Option String × List (String × Nat) :=
+         if cd.pre then (some (c.users.getD (drawn % c.users.length) ""), assocSet w.iters owner (drawn + 1)) else (none, w.iters)
+       (mkVars ui.1 (svFor cd sv) c.g, ui.2)) := rfl
   unfold shootStep specStep
-  simp only [hm1, hm2, Bool.false_eq_true, if_false]
+  simp only [hm1, Bool.false_eq_true, if_false]
   by_cases hpre : cd.pre = true
   · simp only [hpre, if_true] at hsv ⊢
     simp only [hcells, Option.getD_some]
@@ -414,9 +411,9 @@ theorem shootSteps_copy (c : Cfg) (gun : Nat) (scn : String) (hd : namesDistinct
     have hcd : cd ∈ c.calls := hmem cd List.mem_cons_self
     have hrest : ∀ cd' ∈ rest, cd' ∈ c.calls := fun cd' h' => hmem cd' (List.mem_cons_of_mem _ h')
     unfold specSteps at h
-    by_cases hm : ((cd.pre && c.users.isEmpty) || needsMissing cd sv) = true
+    by_cases hm : (cd.pre && c.users.isEmpty) = true
     · simp [hm] at h
-    · have hm' : ((cd.pre && c.users.isEmpty) || needsMissing cd sv) = false := by simpa using hm
+    · have hm' : (cd.pre && c.users.isEmpty) = false := by simpa using hm
       simp only [hm', Bool.false_eq_true, if_false] at h
       obtain ⟨w', hw', hit, _, hstep⟩ := shootStep_copy c gun scn cd w sv hd hw hcd hm'
       unfold shootSteps
